@@ -62,15 +62,35 @@ CLAIMED = {
                   "from excelutil.py, tied by exhaustive pool differential runs against the real fix-up function",
         text="Model/Ops.v transcribes excelutil.build_operator_operand_fixup.fixup branch by branch on top of "
              "Gen/excelutil.v (coerce_to_number, type_cmp_value, is_number, coerce_to_string: re-translated from "
-             "the source every run). Proved for ALL scalar operands: an error operand is returned unchanged, left "
-             "first (13 operators); for any two non-error scalars incl. blank exactly one of <,=,> holds and "
-             "<>,<=,>= are the complements (unbounded strings/numbers; the comparison is defined unless a "
-             "character's case mapping is outside the model); numbers < text < logicals; case-insensitive text "
-             "equality; blank equals 0, \"\" and FALSE; exact integer + - *, true division, x/0 = #DIV/0!, "
-             "logicals/blank as numbers; & on text, integers, logicals, blank. Type closure for every operand "
-             "pair (never raises, never a complex) and transitivity are judged by the oracle over the exhaustive "
-             "pool (~160k triples per quick run), not by a theorem. Correspondence: every (left, op, right) over "
-             "a ~60-value pool, bit-exact.",
+             "the source every run). Proved for ALL scalar operands (unbounded text, VInt and VFloat numbers mixed "
+             "through exact rationals), FULL: an error operand is returned unchanged, left first (13 operators); "
+             "C10_total/C10_closed: + - * / unary-minus & and the six comparisons return, on every pair of "
+             "scalars inside the model, a value of the right kind (logical / text / number or #VALUE!, #DIV/0!) "
+             "and never raise; the model's decidable domain predicate op_modelled is EXACT for all 13 operators "
+             "(C10_unmodelled_exact: outside it the model answers Unmodelled and nothing else — comparisons: "
+             "case mapping outside ASCII/Latin-1/CJK/pictographs; &: repr of a non-integral float outside the "
+             "15-digit domain; arithmetic: non-ASCII text, inf/nan spellings, exponents beyond 300); exactly one of <,=,> holds and <>,<=,>= are the complements for any two "
+             "non-error scalars incl. blank; numbers < text < logicals; case-insensitive text equality; blank "
+             "equals 0, \"\" and FALSE; on non-blank operands <= and < are transitive, <= is antisymmetric and "
+             "total, = is an equivalence (C10_le_transitive, C10_lt_transitive, C10_le_antisymmetric, "
+             "C10_le_total, C10_eq_equivalence); C10_text_coercion: the generated coerce_to_number on ASCII text "
+             "IS the written-out parser text_num (TRUE/FALSE, int(), float()); C10_text_as_number: numeric text "
+             "behaves as the number it spells on either side of + - * / (equal up to the int/float kind of the "
+             "result); C10_text_not_number: other text gives #VALUE! for + - * / ^; C10_arith_value: the result "
+             "of + - * / is the exact rational operation on the operands' values, x/0 = #DIV/0!; logicals/blank "
+             "as numbers; C10_concat_renderings: & is the concatenation of the Excel renderings for every pair "
+             "of non-error scalars (blank empty, TRUE/FALSE, integers, text, floats by repr); "
+             "C10_concat_integral_float: every integral float renders without .0. PARTIAL: "
+             "C10_total_pow_partial — ^ is total (number, #VALUE!, #DIV/0!, #NUM!) exactly when the coerced "
+             "exponent is integral or the base is negative (pow_modelled, C10_pow_domain); a non-integral exponent on a "
+             "non-negative base is irrational in general and outside the exact-arithmetic model, there only "
+             "the oracle judges the implementation. REFUTED in the model and the implementation alike "
+             "(advisory, coq/Refuted/C10_trans_blank.v): through a blank operand neither <= nor = is "
+             "transitive (\"\" <= blank <= 0 but \"\" > 0) — inherent in the property's own rule 'blank as the "
+             "neutral value of the other side', not a defect; the order theorems are stated for non-blank "
+             "operands. Still oracle-only: IEEE rounding outside the float-exact domain, ^ with fractional "
+             "exponents, operands outside op_modelled. Correspondence: every (left, op, right) over a "
+             "~60-value pool plus PRNG samples (~160k triples per quick run), bit-exact.",
         design_ref="DESIGN.md 5 C10",
     ),
     'C17': dict(
